@@ -292,7 +292,8 @@ def Env.find (env : Env) (name : String) (k : Str) : Option Entry :=
   (env.table name).find? (·.key.toList == k)
 
 /-- The leaf an option key addresses: follows `set_param_default<struct>` through the tables.
-    `none` = some component is not a key of the table reached (or the fuel ran out). -/
+    `none` = some component is not a key of the table reached (or the fuel ran out — excluded
+    for `key.length < fuel` when no table has an empty key: `addressed_fuel_suffices`). -/
 def addressed (env : Env) : Nat → Kind → Path → Str → Option (Path × Kind × Str)
   | 0, _, _, _ => none
   | fuel + 1, .struct name, path, key =>
@@ -323,20 +324,27 @@ def optPrefix (kv : Str) : Str := (splitKey (splitKey kv '=').1).1
 def optKey (kv : Str) : Str := (splitKey (splitKey kv '=').1).2
 def optValue (kv : Str) : Str := (splitKey kv '=').2
 
+/-- Recursion budget `set_params` gives `setParam` for one option key.  Every
+    `set_param_default<struct>` level that finds its component consumes at least one character
+    of a non-empty key (and an empty component is not a key of any table), so `key.length + 1`
+    levels always suffice: `Props/C18.lean` proves that any larger budget gives the same result
+    (`setParam_fuel_suffices`) and that `Err.fuel` is never produced (`setParams_never_fuel`). -/
+def keyFuel (key : Str) : Nat := key.length + 1
+
 /-- `set_params(t, prefix, options, used)`: store at return / throw, the increments applied to
     `used` (one entry per option), and the exception. -/
-def setParams (env : Env) (cfg : DurCfg) (parseReal : Str → NumRes R) (fuel : Nat) (top : Kind)
+def setParams (env : Env) (cfg : DurCfg) (parseReal : Str → NumRes R) (top : Kind)
     (pfx : Str) : List Str → Store R → Store R × List Nat × Option Err
   | [], st => (st, [], none)
   | kv :: rest, st =>
     if optPrefix kv != pfx then
-      let r := setParams env cfg parseReal fuel top pfx rest st
+      let r := setParams env cfg parseReal top pfx rest st
       (r.1, 0 :: r.2.1, r.2.2)
     else
-      match setParam env cfg parseReal fuel top [] (optKey kv) (optValue kv) st with
+      match setParam env cfg parseReal (keyFuel (optKey kv)) top [] (optKey kv) (optValue kv) st with
       | (st1, some err) => (st1, 1 :: rest.map (fun _ => 0), some err)
       | (st1, none) =>
-        let r := setParams env cfg parseReal fuel top pfx rest st1
+        let r := setParams env cfg parseReal top pfx rest st1
         (r.1, 1 :: r.2.1, r.2.2)
 
 end leaf
@@ -353,14 +361,14 @@ structure StructDecl where
   name : String
   file : String
   fields : List FieldDecl
-  deriving Repr, Inhabited
+  deriving DecidableEq, Repr, Inhabited
 
 structure EnumDecl where
   name : String
   file : String
   /-- enumerator, value, `[[deprecated]]` -/
   enumerators : List (String × Int × Bool)
-  deriving Repr, Inhabited
+  deriving DecidableEq, Repr, Inhabited
 
 /-- ASCII transliteration convention of `PARAMS_MEMBER_ALIAS(alias, name)`. -/
 def greekName (c : Char) : Option String :=
